@@ -217,10 +217,9 @@ Qed.
 (* ================================================================== 4. ripple-carry adder, every width *)
 Section adder.
   Context (w : nat) (ci co : bool) (v : val).
-  Hypothesis Hc : consistent (c_g (adder w ci co)) v.
-
-  Local Lemma adder_nodes : ∀ n i, (n, i) ∈ adder_l w ci co → node_ok v n i.
-  Proof. apply consistent_list_to_map; [apply adder_keys_NoDup|exact Hc]. Qed.
+  (* every listed node is satisfied by v (what a consistent valuation of the adder gives; also what an
+     instantiated copy inside popcount gives after renaming) *)
+  Hypothesis adder_nodes : ∀ n i, (n, i) ∈ adder_l w ci co → node_ok v n i.
 
   Local Lemma slice_nodes i : i < w → ∀ n inf, (n, inf) ∈ adder_slice i → node_ok v n inf.
   Proof.
@@ -262,7 +261,7 @@ Section adder.
       destruct (v (bitname "a_" k)), (v (bitname "b_" k)), (v (carry_name k)); cbn [xorb andb orb N.b2n] in *; lia.
   Qed.
 
-  Theorem adder_correct :
+  Theorem adder_correct_nodes :
     let total := (bitsN v "a_" w + bitsN v "b_" w + N.b2n (ci && v "cin"))%N in
     bitsN v "out_" w = (total mod 2 ^ N.of_nat w)%N ∧
     (co = true → N.b2n (v "cout") = (total / 2 ^ N.of_nat w)%N).
@@ -280,3 +279,11 @@ Section adder.
       rewrite N.mul_comm, N.div_add by done. rewrite N.div_small by done. lia.
   Qed.
 End adder.
+
+Theorem adder_correct w ci co v : consistent (c_g (adder w ci co)) v →
+  let total := (bitsN v "a_" w + bitsN v "b_" w + N.b2n (ci && v "cin"))%N in
+  bitsN v "out_" w = (total mod 2 ^ N.of_nat w)%N ∧
+  (co = true → N.b2n (v "cout") = (total / 2 ^ N.of_nat w)%N).
+Proof.
+  intros Hc. apply adder_correct_nodes. apply consistent_list_to_map; [apply adder_keys_NoDup|exact Hc].
+Qed.
